@@ -247,6 +247,23 @@ class Program:
             self._unqualify_module_access(m)
         for m in self.modules.values():
             self._index_defs(m)
+        self.hygiene = self._module_hygiene()
+        # decorators: only those whose effect on the call is tabled (spec.TRANSPARENT_DECOS), property accessors and
+        # the package's own wrapper decorators (checked in _apply_wrappers) - anything else may change what the
+        # function receives or returns
+        from . import spec as _spec
+        for f_ in self.funcs.values():
+            if f_.module.is_tools:
+                continue
+            for d_, dn in zip(f_.decos, f_.node.decorator_list):
+                base_ = d_.split("(")[0]
+                if base_ in _spec.TRANSPARENT_DECOS or base_.split(".")[-1] in ("setter", "getter", "deleter", "cache", "lru_cache", "cached_property"):
+                    continue
+                if base_ in f_.module.funcs or (f_.module.imports.get(base_, ("",))[0] == "pkg"):
+                    continue  # a decorator defined in the package: _apply_wrappers accepts or refuses it
+                if base_.split(".")[-1] in ("to_tuple", "to_list", "to_dict", "to_set", "to_ordered_dict", "apply_to_return_value", "contextmanager", "wraps"):
+                    continue
+                self.hygiene.append((f_.module.rel, dn.lineno, "decorator `@%s` on %s is not in the table of decorators whose effect is known" % (ast.unparse(dn)[:50], f_.qual.split(":")[1])))
         from .consts import inline_new_constants
         self.consts_inlined = inline_new_constants(self)
         from .renames import undo_renames
@@ -264,6 +281,98 @@ class Program:
         self.inlined = inline_new_helpers(self)
 
     # ------------------------------------------------------------------
+    def _module_hygiene(self):
+        """Statements the program model does not interpret: anything at module level that is not an import, a def,
+        a class, a docstring or the binding of a plain name (a monkeypatch `Class.m = f`, `exec(..)`,
+        `globals().update(..)`, a loop that fills a table, `del name`); a module-level function defined twice or
+        rebinding an imported name; in a class body, a name bound both by a `def` and by an assignment, or a
+        subclass of an analysed class that overrides one of its methods (assumption A4).  -> [(rel, line, text)]"""
+        out = []
+        for m in self.modules.values():
+            if m.is_tools:
+                continue
+
+            def scan(body, where):
+                seen_defs = {}
+                for n in body:
+                    if isinstance(n, (ast.Import, ast.ImportFrom, ast.ClassDef, ast.Pass)):
+                        continue
+                    if isinstance(n, ast.FunctionDef):
+                        if n.name in seen_defs:
+                            out.append((m.rel, n.lineno, "%s `%s` is defined twice (the second definition replaces the first)" % (where, n.name)))
+                        imp = m.imports.get(n.name) if where == "module-level function" else None
+                        if imp is not None:
+                            out.append((m.rel, n.lineno, "`def %s` rebinds a name this module imports: calls in this module no longer reach the imported function" % n.name))
+                        seen_defs[n.name] = n
+                        continue
+                    if isinstance(n, ast.Expr) and isinstance(n.value, ast.Constant):
+                        continue
+                    if isinstance(n, (ast.Assign, ast.AnnAssign)):
+                        tg = n.targets if isinstance(n, ast.Assign) else [n.target]
+                        flat = []
+                        for t in tg:
+                            flat += list(t.elts) if isinstance(t, (ast.Tuple, ast.List)) else [t]
+                        if all(isinstance(t, ast.Name) for t in flat):
+                            for t in flat:
+                                if t.id in seen_defs:
+                                    out.append((m.rel, n.lineno, "`%s` is rebound after its definition" % t.id))
+                            val = getattr(n, "value", None)
+                            if val is not None and any(isinstance(x, ast.Call) and isinstance(x.func, ast.Name) and x.func.id in ("exec", "eval", "globals", "locals", "vars", "setattr", "__import__")
+                                                       for x in ast.walk(val)):
+                                out.append((m.rel, n.lineno, "module-level `%s` uses a dynamic builtin" % ast.unparse(n)[:60]))
+                            continue
+                    if isinstance(n, ast.If) and where == "module-level function":
+                        t = ast.unparse(n.test)
+                        if "TYPE_CHECKING" in t or "sys.version_info" in t:
+                            continue
+                    out.append((m.rel, n.lineno, "module-level statement `%s` is not part of the program model (only imports, defs, classes and bindings of plain names are)"
+                                % ast.unparse(n).splitlines()[0][:70]))
+            scan(m.tree.body, "module-level function")
+            for c in [x for x in ast.walk(m.tree) if isinstance(x, ast.ClassDef)]:
+                defs, asg = {}, {}
+                for n in c.body:
+                    if isinstance(n, ast.FunctionDef):
+                        is_acc = any(isinstance(d, ast.Attribute) and d.attr in ("setter", "getter", "deleter") for d in n.decorator_list)
+                        if n.name in defs and not is_acc:
+                            out.append((m.rel, n.lineno, "method `%s.%s` is defined twice" % (c.name, n.name)))
+                        defs[n.name] = n
+                    elif isinstance(n, (ast.Assign, ast.AnnAssign)):
+                        for t in (n.targets if isinstance(n, ast.Assign) else [n.target]):
+                            if isinstance(t, ast.Name) and getattr(n, "value", None) is not None:
+                                asg[t.id] = n
+                for k in set(defs) & set(asg):
+                    out.append((m.rel, asg[k].lineno, "`%s.%s` is bound by a def and by an assignment in the class body" % (c.name, k)))
+        # rebinding of module-level / enclosing names from inside a function is state the effect layer does not track
+        for m in self.modules.values():
+            if m.is_tools:
+                continue
+            for n in ast.walk(m.tree):
+                if isinstance(n, (ast.Global, ast.Nonlocal)):
+                    out.append((m.rel, n.lineno, "`%s %s`: a function rebinds a %s name (hidden state between calls)"
+                                % ("global" if isinstance(n, ast.Global) else "nonlocal", ", ".join(n.names), "module-level" if isinstance(n, ast.Global) else "enclosing")))
+        # A4: the analysed data-structure classes are not subclassed with overrides inside the package
+        analysed = {"HexaryTrie", "BinaryTrie", "SparseMerkleTree", "SparseMerkleProof", "HexaryTrieFog", "TrieFrontierCache", "NodeIterator", "ScratchDB"}
+        base_methods = {}
+        for m in self.modules.values():
+            for c in [x for x in ast.walk(m.tree) if isinstance(x, ast.ClassDef)]:
+                if c.name in analysed:
+                    base_methods[c.name] = {n.name for n in c.body if isinstance(n, ast.FunctionDef)}
+        for m in self.modules.values():
+            if m.is_tools:
+                continue
+            for c in [x for x in ast.walk(m.tree) if isinstance(x, ast.ClassDef)]:
+                for b in c.bases:
+                    bn = b.id if isinstance(b, ast.Name) else (b.attr if isinstance(b, ast.Attribute) else None)
+                    imp = m.imports.get(bn) if isinstance(b, ast.Name) else None
+                    if imp is not None and imp[0] == "pkg" and imp[2]:
+                        bn = imp[2]  # `from trie.hexary import HexaryTrie as _HT`
+                    if bn in base_methods and c.name != bn:
+                        over = sorted({n.name for n in c.body if isinstance(n, ast.FunctionDef)} & base_methods[bn])
+                        if over:
+                            out.append((m.rel, c.lineno, "class `%s` subclasses the analysed class `%s` and overrides %s: which body runs depends on the receiver's class (assumption A4)"
+                                        % (c.name, bn, ", ".join(over[:4]))))
+        return out
+
     @classmethod
     def from_repo(cls, root=None):
         return cls(load_sources(root))
